@@ -8,6 +8,7 @@
   (every wire goes forward).  The tie between this numeric loop and `calculate_highwater` is the oracle/correspondence of
   harness/props/c16.py, which recomputes every node's highwater by cut enumeration.
 -/
+import BartiqModel.Highwater
 import Mathlib.Algebra.Order.Group.Defs
 import Mathlib.Algebra.BigOperators.Group.List.Basic
 import Mathlib.Order.Defs.LinearOrder
@@ -21,11 +22,6 @@ structure Wire (K : Type) where
   src : Nat
   tgt : Nat
   size : K
-
-structure ChildFlow (K : Type) where
-  inflow : K
-  outflow : K
-  hw : K
 
 /-- total size of the wires satisfying `P` -/
 def S (ws : List (Wire K)) (P : Wire K → Prop) [DecidablePred P] : K := (ws.map fun w => if P w then w.size else 0).sum
@@ -68,11 +64,6 @@ theorem S_congr (ws : List (Wire K)) (P Q : Wire K → Prop) [DecidablePred P] [
   · simp [hp, (h w hw).mp hp]
   · have : ¬ Q w := fun hq => hp ((h w hw).mpr hq)
     simp [hp, this]
-
-/-- the watermarks the loop records from child `j` on, starting with active flow `active` -/
-def watermarks (outR : K) : List (ChildFlow K) → K → List K
-  | [], _ => [outR]
-  | c :: cs, active => (active - c.inflow + c.hw) :: watermarks outR cs (active - c.inflow + c.outflow)
 
 /-- the same list in the cut formulation: wires alive during child `j` (source at a position ≤ j, target beyond j+1) -/
 def cuts (ws : List (Wire K)) (thru outR : K) : List (ChildFlow K) → Nat → List K
@@ -119,9 +110,6 @@ theorem watermarks_eq_cuts (ws : List (Wire K)) (thru outR : K)
 
 variable [LinearOrder K]
 
-/-- maximum of a non-empty list of watermarks -/
-def maxOf (x : K) (xs : List K) : K := xs.foldl max x
-
 theorem le_maxOf_head (x : K) (xs : List K) : x ≤ maxOf x xs := by
   unfold maxOf
   induction xs generalizing x with
@@ -138,10 +126,6 @@ theorem le_maxOf_mem (x : K) (xs : List K) (y : K) (hy : y ∈ xs) : y ≤ maxOf
     rcases hy with rfl | hy
     · exact le_trans (le_max_right x y) (le_maxOf_head (max x y) zs)
     · exact ih (max x z) hy
-
-/-- the value `calculate_highwater` returns: local ancillae + the maximum of (total input size, the per-child watermarks,
-    total output size) -/
-def highwaterNum (anc inR outR : K) (cs : List (ChildFlow K)) : K := anc + maxOf inR (watermarks outR cs inR)
 
 /-- **C16**: the derived highwater is the local ancillae plus the maximum over the moments before the first child (total
     input size), during each child (wires alive at that moment + the child's own highwater) and after the last child -/
@@ -193,6 +177,44 @@ theorem C16_ge_child_plus_bypass [IsOrderedAddMonoid K] (ws : List (Wire K)) (th
     anc + x ≤ highwaterNum anc inR outR cs := by
   rw [heq]
   exact add_le_add_right (le_maxOf_mem inR _ x hx) anc
+
+/-! ### the code drops watermarks equal to 0 before taking the maximum: harmless on non-negative sizes -/
+
+theorem foldl_max_filter_zero (l : List K) (acc : K) (hacc : 0 ≤ acc) :
+    (l.filter (fun w => w ≠ 0)).foldl max acc = l.foldl max acc := by
+  induction l generalizing acc with
+  | nil => rfl
+  | cons w ws ih =>
+    by_cases hw : w = 0
+    · subst hw
+      simp only [ne_eq, not_true_eq_false, decide_false, Bool.false_eq_true, not_false_eq_true, List.filter_cons_of_neg,
+        List.foldl_cons, max_eq_left hacc]
+      exact ih acc hacc
+    · simp only [ne_eq, hw, not_false_eq_true, decide_true, List.filter_cons_of_pos, List.foldl_cons]
+      exact ih (max acc w) (le_trans hacc (le_max_left acc w))
+
+theorem maxOf_eq_foldl_zero (x : K) (xs : List K) (hx : 0 ≤ x) : maxOf x xs = (x :: xs).foldl max 0 := by
+  simp [maxOf, List.foldl_cons, max_eq_right hx]
+
+/-- **the literal code = the cut formula's value** whenever no watermark is negative (sizes and highwaters are qubit counts):
+    dropping the zero watermarks, and returning the ancillae alone when nothing is left, changes nothing -/
+theorem C16_zero_filter_harmless (anc inR outR : K) (cs : List (ChildFlow K))
+    (hnn : ∀ w ∈ inR :: watermarks outR cs inR, 0 ≤ w) :
+    highwaterImpl anc inR outR cs = highwaterNum anc inR outR cs := by
+  unfold highwaterImpl highwaterNum
+  have hin : 0 ≤ inR := hnn inR (by simp)
+  rw [maxOf_eq_foldl_zero inR _ hin, ← foldl_max_filter_zero (inR :: watermarks outR cs inR) 0 (le_refl 0)]
+  cases hf : (inR :: watermarks outR cs inR).filter (fun w => w ≠ 0) with
+  | nil => simp
+  | cons w ws =>
+    have hw : 0 ≤ w := hnn w ((List.mem_filter.mp (by rw [hf]; simp : w ∈ (inR :: watermarks outR cs inR).filter (fun w => w ≠ 0))).1)
+    simp only
+    rw [maxOf_eq_foldl_zero w ws hw]
+
+-- the hypothesis is needed: with a negative "size" the literal code and the cut formula differ
+example : highwaterImpl (0 : Int) (-1) 0 [] = -1 ∧ highwaterNum (0 : Int) (-1) 0 [] = 0 := by decide
+-- and it is satisfiable: input 3, one child (inflow 3, outflow 2, highwater 5), output 2
+example : (∀ w ∈ (3 : Int) :: watermarks 2 [⟨3, 2, 5⟩] 3, 0 ≤ w) ∧ highwaterImpl (1 : Int) 3 2 [⟨3, 2, 5⟩] = 6 := by decide
 
 -- non-vacuity: one child (position 1) fed by a wire of size 3 from the input side (position 0), output wire of size 2
 example : (∀ w ∈ ([⟨0, 1, 3⟩, ⟨1, 2, 2⟩] : List (Wire Int)), w.src < w.tgt) := by decide
